@@ -456,3 +456,70 @@ pharness! {
         kani::cover!(code == ACC, "trailer change tolerated, same authenticated content");
     }
 }
+
+// ---------------------------------------------------------------- native scenario test (lead)
+// The tamper harnesses use a recording probe cipher; their counterexamples come with traces too
+// large for kani-driver's playback. This ordinary test drives the REAL decoder with a real key set
+// and real AES-SIV on one concrete NTS request with a tampered byte in each protected region; the
+// driver runs it natively when a C25 harness fails and reports a violation only if it fails.
+#[cfg(test)]
+mod native {
+    use ntp_proto::verif::keyset as kh;
+    use ntp_proto::verif::packet::crypto::{AesSivCmac256, Cipher as _};
+    use ntp_proto::{KeySet, KeySetProvider, NtpPacket, PacketParsingError};
+
+    /// header | uid(32) | cookie | authenticator (empty plaintext); returns (bytes, start of the authenticator field)
+    fn nts_request(keyset: &KeySet) -> (Vec<u8>, usize) {
+        let c2s = AesSivCmac256::new([7u8; 32].into());
+        let cookie = kh::keyset_encode_cookie(
+            keyset,
+            &kh::decoded_cookie_from_parts(15, Box::new(AesSivCmac256::new([9u8; 32].into())), Box::new(AesSivCmac256::new([7u8; 32].into()))),
+        );
+        let mut m = vec![0u8; 48];
+        m[0] = 0x23;
+        m[40..48].copy_from_slice(&[1, 2, 3, 4, 5, 6, 7, 8]);
+        m.extend_from_slice(&[0x01, 0x04, 0x00, 36]);
+        m.extend(std::iter::repeat(0xAB).take(32));
+        m.extend_from_slice(&[0x02, 0x04]);
+        m.extend_from_slice(&((4 + cookie.len()) as u16).to_be_bytes());
+        m.extend_from_slice(&cookie);
+        let auth_start = m.len();
+        let mut ct = vec![0u8; 64];
+        let r = c2s.encrypt(&mut ct, 0, &m).unwrap();
+        let total = 8 + r.nonce_length + r.ciphertext_length;
+        m.extend_from_slice(&[0x04, 0x04]);
+        m.extend_from_slice(&(total as u16).to_be_bytes());
+        m.extend_from_slice(&(r.nonce_length as u16).to_be_bytes());
+        m.extend_from_slice(&(r.ciphertext_length as u16).to_be_bytes());
+        m.extend_from_slice(&ct[..r.nonce_length + r.ciphertext_length]);
+        (m, auth_start)
+    }
+
+    #[test]
+    fn native_tampered_request_reports_nothing_authentic() {
+        let keyset = KeySetProvider::new(1).get();
+        let (good, auth_start) = nts_request(&keyset);
+        // sanity: the untampered request authenticates
+        match NtpPacket::deserialize(&good, keyset.as_ref()) {
+            Ok((p, cookie)) => {
+                assert!(cookie.is_some(), "genuine request: cookie keys recovered");
+                assert!(p.authenticated_extension_fields().count() >= 1, "genuine request: fields before the authenticator are authenticated");
+            }
+            Err(_) => panic!("genuine request must authenticate"),
+        }
+        // one tampered byte in: header, unique identifier body, nonce, ciphertext (tag)
+        for pos in [5usize, 60, auth_start + 8 + 3, good.len() - 2] {
+            let mut bad = good.clone();
+            bad[pos] ^= 0x40;
+            match NtpPacket::deserialize(&bad, keyset.as_ref()) {
+                Ok((p, cookie)) => {
+                    assert!(cookie.is_none() && p.authenticated_extension_fields().count() == 0, "tampered byte {pos}: accepted as authentic");
+                }
+                Err(PacketParsingError::DecryptError(p)) => {
+                    assert!(p.authenticated_extension_fields().count() == 0, "tampered byte {pos}: fields reported as authenticated after a failed authentication");
+                }
+                Err(_) => {}
+            }
+        }
+    }
+}
